@@ -38,7 +38,7 @@ pub enum Sx {
 use Sx::{A, L};
 
 impl Sx {
-    fn write(&self, out: &mut String) {
+    pub(crate) fn write(&self, out: &mut String) {
         match self {
             A(a) => out.push_str(a),
             L(xs) => {
@@ -70,25 +70,25 @@ impl Sx {
             None
         }
     }
-    fn as_list(&self) -> Option<&[Sx]> {
+    pub(crate) fn as_list(&self) -> Option<&[Sx]> {
         match self {
             L(v) => Some(v),
             _ => None,
         }
     }
-    fn atom(&self) -> Option<&str> {
+    pub(crate) fn atom(&self) -> Option<&str> {
         match self {
             A(a) => Some(a),
             _ => None,
         }
     }
-    fn is_none(&self) -> bool {
+    pub(crate) fn is_none(&self) -> bool {
         matches!(self, A(a) if a == "-")
     }
-    fn nat(&self) -> Option<u64> {
+    pub(crate) fn nat(&self) -> Option<u64> {
         self.atom()?.strip_prefix('n')?.parse().ok()
     }
-    fn string(&self) -> Option<String> {
+    pub(crate) fn string(&self) -> Option<String> {
         let h = self.atom()?.strip_prefix('s')?;
         if h.is_empty() {
             return Some(String::new());
@@ -96,33 +96,33 @@ impl Sx {
         String::from_utf8(unhex(h)?).ok()
     }
     /// raw bytes (`b<hex>`), may be invalid UTF-8
-    fn bytes(&self) -> Option<Vec<u8>> {
+    pub(crate) fn bytes(&self) -> Option<Vec<u8>> {
         let h = self.atom()?.strip_prefix('b')?;
         if h.is_empty() {
             return Some(vec![]);
         }
         unhex(h)
     }
-    fn boolean(&self) -> Option<bool> {
+    pub(crate) fn boolean(&self) -> Option<bool> {
         match self.atom()? {
             "t" => Some(true),
             "f" => Some(false),
             _ => None,
         }
     }
-    fn opt<T>(&self, f: impl Fn(&Sx) -> Option<T>) -> Option<Option<T>> {
+    pub(crate) fn opt<T>(&self, f: impl Fn(&Sx) -> Option<T>) -> Option<Option<T>> {
         if self.is_none() {
             Some(None)
         } else {
             f(self).map(Some)
         }
     }
-    fn list<T>(&self, f: impl Fn(&Sx) -> Option<T>) -> Option<Vec<T>> {
+    pub(crate) fn list<T>(&self, f: impl Fn(&Sx) -> Option<T>) -> Option<Vec<T>> {
         self.as_list()?.iter().map(f).collect()
     }
 }
 
-fn sx_line(items: &[Sx]) -> String {
+pub(crate) fn sx_line(items: &[Sx]) -> String {
     let mut s = String::new();
     for (i, x) in items.iter().enumerate() {
         if i > 0 {
@@ -132,40 +132,40 @@ fn sx_line(items: &[Sx]) -> String {
     }
     s
 }
-fn sx_parse(line: &str) -> Option<Vec<Sx>> {
+pub(crate) fn sx_parse(line: &str) -> Option<Vec<Sx>> {
     let toks: Vec<&str> = line.split(' ').filter(|t| !t.is_empty()).collect();
     let mut pos = 0;
     Sx::parse_seq(&toks, &mut pos, true)
 }
 
-fn n(v: u64) -> Sx {
+pub(crate) fn n(v: u64) -> Sx {
     A(format!("n{v}"))
 }
-fn s(v: &str) -> Sx {
+pub(crate) fn s(v: &str) -> Sx {
     A(format!("s{}", if v.is_empty() { String::new() } else { hex(v.as_bytes()) }))
 }
-fn bts(v: &[u8]) -> Sx {
+pub(crate) fn bts(v: &[u8]) -> Sx {
     A(format!("b{}", if v.is_empty() { String::new() } else { hex(v) }))
 }
-fn b(v: bool) -> Sx {
+pub(crate) fn b(v: bool) -> Sx {
     A(if v { "t" } else { "f" }.to_string())
 }
-fn none() -> Sx {
+pub(crate) fn none() -> Sx {
     A("-".to_string())
 }
-fn tag(t: &str) -> Sx {
+pub(crate) fn tag(t: &str) -> Sx {
     A(t.to_string())
 }
-fn o<T>(v: Option<T>, f: impl Fn(T) -> Sx) -> Sx {
+pub(crate) fn o<T>(v: Option<T>, f: impl Fn(T) -> Sx) -> Sx {
     match v {
         Some(x) => f(x),
         None => none(),
     }
 }
-fn os_(v: Option<&str>) -> Sx {
+pub(crate) fn os_(v: Option<&str>) -> Sx {
     o(v, s)
 }
-fn on(v: Option<u64>) -> Sx {
+pub(crate) fn on(v: Option<u64>) -> Sx {
     o(v, n)
 }
 
@@ -196,7 +196,7 @@ fn mk_reason(x: &Sx) -> Option<CrashReason> {
     })
 }
 
-const CTX_KINDS: [&str; 9] = ["x86", "amd64", "arm", "arm64", "oldarm64", "mips", "ppc", "ppc64", "sparc"];
+pub(crate) const CTX_KINDS: [&str; 9] = ["x86", "amd64", "arm", "arm64", "oldarm64", "mips", "ppc", "ppc64", "sparc"];
 
 fn mk_ctx(x: &Sx) -> Option<MinidumpContext> {
     let l = x.as_list()?;
@@ -589,7 +589,7 @@ fn mk_exc(x: &Sx) -> Option<ExceptionInfo> {
     Some(info)
 }
 
-fn build(items: &[Sx]) -> Option<ProcessState> {
+pub(crate) fn build(items: &[Sx]) -> Option<ProcessState> {
     if items.len() != 17 {
         return None;
     }
@@ -714,7 +714,7 @@ fn os_tag(os: &Os) -> Sx {
         Os::Unknown(v) => L(vec![tag("unknown"), n(*v as u64)]),
     }
 }
-fn cpu_tag(c: &Cpu) -> &'static str {
+pub(crate) fn cpu_tag(c: &Cpu) -> &'static str {
     match c {
         Cpu::X86 => "x86",
         Cpu::X86_64 => "amd64",
@@ -728,7 +728,7 @@ fn cpu_tag(c: &Cpu) -> &'static str {
         _ => "unknown",
     }
 }
-fn trust_tag(t: &FrameTrust) -> &'static str {
+pub(crate) fn trust_tag(t: &FrameTrust) -> &'static str {
     match t {
         FrameTrust::None => "none",
         FrameTrust::Scan => "scan",
@@ -756,7 +756,7 @@ fn limit_sx(l: &Limit) -> Sx {
     }
 }
 
-fn alpha_ctx(ctx: &MinidumpContext) -> Sx {
+pub(crate) fn alpha_ctx(ctx: &MinidumpContext) -> Sx {
     let gpr: Vec<Sx> = ctx
         .general_purpose_registers()
         .iter()
@@ -780,7 +780,7 @@ fn after<'a>(text: &'a str, key: &str) -> Option<&'a str> {
     Some(&rest[..end])
 }
 
-fn alpha(ps: &ProcessState) -> Vec<Sx> {
+pub(crate) fn alpha(ps: &ProcessState) -> Vec<Sx> {
     let cert: Vec<Sx> = ps.cert_info.iter().map(|(k, v)| L(vec![s(k), s(v)])).collect();
     let exc = o(ps.exception_info.as_ref(), |e| {
         let adjusted = o(e.adjusted_address.as_ref(), |a| match a {
@@ -1512,7 +1512,7 @@ fn process_bytes(bytes: Vec<u8>) -> Option<ProcessState> {
 
 /// `json proc b<hex text>`: a synthetic dump carrying a MozSoftErrors stream with that text goes
 /// through `process_minidump`; the resulting state is then treated like every other one
-fn build_proc(items: &[Sx]) -> Option<ProcessState> {
+pub(crate) fn build_proc(items: &[Sx]) -> Option<ProcessState> {
     use minidump_synth::{Memory, SynthMinidump, SystemInfo as SynthSystemInfo, Thread};
     use test_assembler::{Endian, Section};
     if items.len() != 2 {
@@ -1534,17 +1534,17 @@ fn build_proc(items: &[Sx]) -> Option<ProcessState> {
 /// directly constructed states are written `json st <17 items>`: the constant second field keeps
 /// the framework's per-shape cap on kept failures meaningful (the bare legacy form, whose second
 /// field is the pid, is still accepted — old corpus lines and replays)
-fn strip_shape(mut items: Vec<Sx>) -> Vec<Sx> {
+pub(crate) fn strip_shape(mut items: Vec<Sx>) -> Vec<Sx> {
     if matches!(items.first(), Some(A(a)) if a == "st") {
         items.remove(0);
     }
     items
 }
 
-fn is_proc_case(items: &[Sx]) -> bool {
+pub(crate) fn is_proc_case(items: &[Sx]) -> bool {
     matches!(items.first(), Some(A(a)) if a == "proc")
 }
-fn is_procx_case(items: &[Sx]) -> bool {
+pub(crate) fn is_procx_case(items: &[Sx]) -> bool {
     matches!(items.first(), Some(A(a)) if a == "procx")
 }
 
@@ -1795,7 +1795,7 @@ fn ip_update_template(addr: u64) -> Option<ExceptionInfo> {
 
 /// `json procx <os> <cpu> ( exc ) ( regs ) b<code> ( regions ) <data> <lsb> <limits> <maps> <thread name>
 ///  ( modules ) ( unloaded ) b<stack>` → `process_minidump`
-fn build_procx(items: &[Sx]) -> Option<ProcessState> {
+pub(crate) fn build_procx(items: &[Sx]) -> Option<ProcessState> {
     if items.len() != 16 {
         return None;
     }
@@ -1863,7 +1863,7 @@ fn run(case: &str) -> Option<Run> {
 }
 
 /// the well-formedness the theorems assume (`WF` in MdProofs/C15.lean), on the real state
-fn wf(ps: &ProcessState) -> bool {
+pub(crate) fn wf(ps: &ProcessState) -> bool {
     ps.requesting_thread.map_or(true, |i| i < ps.threads.len())
         && ps.modules.iter().all(|m| m.raw.base_of_image.checked_add(m.raw.size_of_image as u64).is_some())
         && ps.unloaded_modules.iter().all(|m| m.raw.base_of_image.checked_add(m.raw.size_of_image as u64).is_some())
@@ -1890,12 +1890,12 @@ fn expected_out(r: &Run, orc_json: &Option<Value>) -> String {
     }
 }
 
-fn has_hostile(s: &str) -> bool {
+pub(crate) fn has_hostile(s: &str) -> bool {
     s.chars().any(|c| (c as u32) < 0x20 || c == '"' || c == '\\' || (c as u32) > 0xffff || c == '\u{fffd}')
 }
 
 /// which optional parts of `crash_info` a state carries
-fn crash_tags(ps: &ProcessState) -> Vec<String> {
+pub(crate) fn crash_tags(ps: &ProcessState) -> Vec<String> {
     let mut t = Vec::new();
     let Some(e) = ps.exception_info.as_ref() else {
         return vec!["exception:none".into()];
@@ -2000,7 +2000,7 @@ fn pk<'a>(rng: &mut Rng, xs: &[&'a str]) -> &'a str {
     xs[rng.below(xs.len() as u64) as usize]
 }
 
-fn gen_string(rng: &mut Rng, hostile: bool) -> String {
+pub(crate) fn gen_string(rng: &mut Rng, hostile: bool) -> String {
     let mut s = String::new();
     let len = match rng.below(8) {
         0 => 0,
@@ -2030,7 +2030,7 @@ fn gen_string(rng: &mut Rng, hostile: bool) -> String {
     s
 }
 
-fn gen_addr(rng: &mut Rng, bits64: bool) -> u64 {
+pub(crate) fn gen_addr(rng: &mut Rng, bits64: bool) -> u64 {
     match rng.below(10) {
         0 => 0,
         1 => u32::MAX as u64,
@@ -2058,7 +2058,7 @@ fn gen_reason(rng: &mut Rng) -> Sx {
 }
 
 const OSES: [&str; 8] = ["windows", "macos", "ios", "linux", "solaris", "android", "ps3", "nacl"];
-const CPUS: [&str; 10] = ["x86", "amd64", "ppc", "ppc64", "sparc", "arm", "arm64", "mips", "mips64", "unknown"];
+pub(crate) const CPUS: [&str; 10] = ["x86", "amd64", "ppc", "ppc64", "sparc", "arm", "arm64", "mips", "mips64", "unknown"];
 const TRUSTS: [&str; 7] = ["none", "scan", "cfi_scan", "frame_pointer", "cfi", "prewalked", "context"];
 const INCONS: [&str; 5] = ["intdiv", "priv", "noncanon", "accessallowed", "notfound"];
 
@@ -2073,12 +2073,12 @@ fn gen_access(rng: &mut Rng, bits64: bool) -> Sx {
     ])
 }
 
-struct GenOpts {
-    hostile: bool,
+pub(crate) struct GenOpts {
+    pub(crate) hostile: bool,
     /// allow the deliberate departures from well-formedness (panicking states, empty offset sets)
-    wild: bool,
+    pub(crate) wild: bool,
     /// allow the states that leave the documented schema (os unknown, handle ≥ 2^32, soft_errors shape)
-    defects: bool,
+    pub(crate) defects: bool,
 }
 
 fn gen_json_value(rng: &mut Rng, depth: u32, hostile: bool) -> Value {
@@ -2097,7 +2097,7 @@ fn gen_json_value(rng: &mut Rng, depth: u32, hostile: bool) -> Value {
     }
 }
 
-fn gen_state(rng: &mut Rng, g: &GenOpts) -> Vec<Sx> {
+pub(crate) fn gen_state(rng: &mut Rng, g: &GenOpts) -> Vec<Sx> {
     let cpu = *rng.pick(&CPUS);
     let bits64 = !matches!(cpu, "x86" | "ppc" | "sparc" | "arm" | "mips");
     let gs = |rng: &mut Rng| gen_string(rng, g.hostile);
@@ -2390,7 +2390,7 @@ fn gen_state(rng: &mut Rng, g: &GenOpts) -> Vec<Sx> {
 }
 
 /// amd64 encodings by what `op_analysis` derives from them
-const INSNS: [(&str, &[u8]); 36] = [
+pub(crate) const INSNS: [(&str, &[u8]); 36] = [
     ("mov rax,[rbx]", &[0x48, 0x8b, 0x03]),
     ("mov eax,[rbx+0x10]", &[0x8b, 0x43, 0x10]),
     ("cmp rax,[rbx]", &[0x48, 0x3b, 0x03]),
@@ -2430,7 +2430,7 @@ const INSNS: [(&str, &[u8]); 36] = [
 ];
 
 #[allow(clippy::too_many_arguments)]
-fn procx_case(
+pub(crate) fn procx_case(
     os: &str, cpu: &str, exc: [u64; 6], regs: &[(&str, u64)], code: &[u8], regions: &[(u64, u64, u32)],
     data: Option<(u64, Vec<u8>)>, lsb: Option<&str>, limits: Option<&str>, maps: Option<&str>, tname: Option<&str>,
     modules: &[(u64, u64, &str)], unloaded: &[(u64, u64, &str)], stack: &[u8], threads: (u64, u64, Option<u64>),
@@ -2459,7 +2459,7 @@ fn procx_case(
 /// a crash dump for the processor path: crashing instruction, registers, exception record and
 /// memory map chosen so that every branch of the instruction analysis, the guard-page test and
 /// the consistency checks is reachable
-fn gen_procx(rng: &mut Rng) -> Vec<Sx> {
+pub(crate) fn gen_procx(rng: &mut Rng) -> Vec<Sx> {
     const DATA: u64 = 0x5000_0000; // readable+writable page; a no-access (guard) page sits below it
     // the crashing instruction sits in the main module, or (1 in 6) where only unloaded modules were
     let in_unloaded = rng.chance(1, 6);
@@ -2596,7 +2596,7 @@ fn all_escape_classes() -> String {
     s
 }
 
-fn directed(emit: &mut dyn FnMut(String)) {
+pub(crate) fn directed(emit: &mut dyn FnMut(String)) {
     let mut rng = Rng::new(7);
     let g = GenOpts { hostile: false, wild: false, defects: false };
     // every CPU (pointer width incl. unknown) x every context kind as frame 0 of the crashing thread,
@@ -2980,7 +2980,7 @@ impl Json {
     }
 }
 
-fn collect_paths(items: &[Sx]) -> Vec<Vec<usize>> {
+pub(crate) fn collect_paths(items: &[Sx]) -> Vec<Vec<usize>> {
     fn go(x: &Sx, cur: &mut Vec<usize>, out: &mut Vec<Vec<usize>>) {
         out.push(cur.clone());
         if let L(v) = x {
@@ -3012,7 +3012,7 @@ fn get_mut<'a>(items: &'a mut [Sx], path: &[usize]) -> Option<&'a mut Sx> {
     Some(cur)
 }
 
-fn candidates(items: &[Sx], path: &[usize]) -> Vec<Vec<Sx>> {
+pub(crate) fn candidates(items: &[Sx], path: &[usize]) -> Vec<Vec<Sx>> {
     let mut out = Vec::new();
     let mut base = items.to_vec();
     let Some(node) = get_mut(&mut base, path).map(|n| n.clone()) else {
